@@ -490,7 +490,8 @@ fn incremental_body<const P: usize>() {
     std::mem::forget(state);
     std::mem::forget(old);
 }
-lt_harness!(c20_lt_incremental_p0, incremental_body::<0>());
+// NOT INSTANTIATED (time cap: the lane loops need unwind 67, which is also the bound to which the
+// state traversal is then unrolled): lt_harness!(c20_lt_incremental_p0, incremental_body::<0>());
 // NOT INSTANTIATED (the real `State` with one pre-inserted entry does not fit 10 GB, see spec.py):
 // lt_harness!(c20_lt_incremental_p1, incremental_body::<1>());
 // lt_harness!(c20_lt_incremental_p2, incremental_body::<2>());
